@@ -84,6 +84,21 @@ func VP_C08_coalesce() {
 	vpExpectPackets(tr, types, bodies, "coalesce")
 }
 
+//vp:property C08 C06
+//vp:bounds one 5000-byte packet (symbolic type; symbolic first, middle, last payload bytes, rest constant) delivered in exactly two reads cut at 100, 3000, 4095, 4096 (first fragment fits the 4096-byte scratch buffer, the whole packet does not)
+func VP_C08_split2_big() {
+	body := make([]byte, 4992)
+	for i := range body {
+		body[i] = 0xAB
+	}
+	body[0], body[2500], body[4991] = vpU8("first"), vpU8("mid"), vpU8("last")
+	pt := vpU16("pt")
+	p := vpPacket(pt, body)
+	c := []int{100, 3000, 4095, 4096}[vpIntRange("cut", 0, 3)]
+	tr := &vpTransport{in: [][]byte{p[:c:c], p[c:]}}
+	vpExpectPackets(tr, []uint16{pt}, [][]byte{body}, "split2big")
+}
+
 //vp:property C08
 //vp:bounds one 4200-byte packet (symbolic type, symbolic first and last payload bytes, rest zero) whose first fragment is 4100 bytes, i.e. larger than the 4096-byte scratch buffer
 func VP_C08_bigfrag() {
